@@ -70,6 +70,11 @@ func NewSnippet(b []byte, opts ...SnippetOption) *Snippet {
 	// Work out the start and end lines of the snippet
 	snippet.start = max(snippet.line-snippet.padding, 1)
 	snippet.end = min(snippet.line+snippet.padding, len(linesRaw)-1)
+	// The line number comes from the YAML parser, which also counts line
+	// breaks other than "\n" (a lone "\r" for example), so it may lie beyond
+	// the lines we split; never slice outside of them.
+	snippet.end = min(snippet.end, len(linesHighlighted))
+	snippet.start = min(snippet.start, snippet.end+1)
 	snippet.linesRaw = linesRaw[snippet.start-1 : snippet.end]
 	snippet.linesHighlighted = linesHighlighted[snippet.start-1 : snippet.end]
 
